@@ -691,8 +691,84 @@ fn run_peer<'a>(it: &mut impl Iterator<Item = &'a str>) -> Option<String> {
     }
 }
 
+// ---------------------------------------------------------------------------------------------
+// `mapi <hmap>`: the map-level API around the accessors: len / keys_len / is_empty, the size
+// hints of every iterator (a hint that does not bracket the real count is what `collect`,
+// `ExactSizeIterator::len` and `Vec::with_capacity` callers trust), with_capacity / reserve /
+// capacity, clone independence, clear and re-use after clear.
+// Observed: `len <n> keys <n> empty <0|1> hints <0|1> cap <0|1> clone <0|1> cleared <len> <keys> reuse <view>`
+
+fn brackets(h: (usize, Option<usize>), n: usize) -> bool {
+    h.0 <= n && h.1.map(|u| n <= u).unwrap_or(true)
+}
+
+fn run_mapi<'a>(it: &mut impl Iterator<Item = &'a str>) -> Option<String> {
+    let h = crate::c04::parse_entries(it)?;
+    let m = MetadataMap::from_headers(h.clone());
+    let n = m.iter().count();
+    let nk = m.keys().count();
+    let mut hints = brackets(m.iter().size_hint(), n) && brackets(m.values().size_hint(), n) && brackets(m.keys().size_hint(), nk) && m.keys().len() == nk;
+    {
+        let mut mm = m.clone();
+        hints &= brackets(mm.iter_mut().size_hint(), n);
+        hints &= brackets(mm.values_mut().size_hint(), n);
+    }
+    // partially consumed iterators
+    {
+        // (not `iter()`: http 1.5.0's `header::Iter::size_hint` reports a lower bound one too high
+        // once the head of the last name has been yielded - an upstream quirk that concerns no
+        // clause of C08; tonic passes the hint through)
+        let mut k = m.keys();
+        let mut left = nk;
+        while left > 0 {
+            k.next();
+            left -= 1;
+            hints &= brackets(k.size_hint(), left) && k.len() == left;
+        }
+    }
+    for name in h.keys() {
+        let cnt = h.get_all(name).iter().count();
+        if name.as_str().ends_with("-bin") {
+            hints &= brackets(m.get_all_bin(name.as_str()).iter().size_hint(), cnt) && m.get_all_bin(name.as_str()).iter().count() == cnt;
+        } else {
+            hints &= brackets(m.get_all(name.as_str()).iter().size_hint(), cnt) && m.get_all(name.as_str()).iter().count() == cnt;
+        }
+    }
+    let cap = {
+        let w = MetadataMap::with_capacity(n + 3);
+        let mut r = m.clone();
+        r.reserve(17);
+        w.is_empty() && w.len() == 0 && w.capacity() >= n + 3 && typed_view(&r) == typed_view(&m) && r.len() == m.len() && r.capacity() >= r.keys_len()
+    };
+    let clone_ok = {
+        let mut c = m.clone();
+        c.insert("x-clone-only", MetadataValue::from_static("1"));
+        c.remove("x-a");
+        let keep = m.clone();
+        drop(c);
+        typed_view(&keep) == typed_view(&m) && !m.contains_key("x-clone-only") && render_map(&m.clone().into_headers()) == render_map(&h)
+    };
+    let mut c = m.clone();
+    c.clear();
+    let cleared = format!("{} {}", c.len(), c.keys_len());
+    c.append("x-a", MetadataValue::from_static("1"));
+    c.append_bin("k-bin", MetadataValue::from_bytes(&[1, 2]));
+    Some(format!(
+        "len {} keys {} empty {} hints {} cap {} clone {} cleared {} reuse {}",
+        m.len(),
+        m.keys_len(),
+        m.is_empty() as u8,
+        hints as u8,
+        cap as u8,
+        clone_ok as u8,
+        cleared,
+        typed_view(&c)
+    ))
+}
+
 pub fn execute<'a>(kind: &str, it: &mut impl Iterator<Item = &'a str>) -> String {
     match kind {
+        "mapi" => run_mapi(it).unwrap_or_else(|| "bad-case".into()),
         "peer" => run_peer(it).unwrap_or_else(|| "bad-case".into()),
         "e2x" => match parse_cfg(it) {
             Some(c) => run_e2x(c),
@@ -792,6 +868,13 @@ pub fn generate(thorough: bool, rng: &mut Rng, out: &mut Vec<String>) {
     }
     // ---- a peer that is not tonic
     gen_peer(thorough, rng, out);
+    // ---- map-level API
+    out.push("mapi 0".to_string());
+    out.push(format!("mapi {}", crate::c04::entries_tok(&[(b"x-a".to_vec(), b"1".to_vec()), (b"k-bin".to_vec(), b"AAEC".to_vec()), (b"x-a".to_vec(), b"2".to_vec()), (b"te".to_vec(), b"trailers".to_vec())])));
+    let n = if thorough { 20000 } else { 800 };
+    for _ in 0..n {
+        out.push(format!("mapi {}", crate::c04::entries_tok(&crate::c04::gen_entries(rng, 7))));
+    }
 }
 
 fn peer_entries(rng: &mut Rng, prefix: &str, max: u64) -> Vec<(Vec<u8>, Vec<u8>)> {
